@@ -45,6 +45,8 @@ class Opts:
         self.p_placeholder_clash = 0.3
         self.p_zero_size = 0.08
         self.p_port_local_clash = 0.0
+        self.p_zero_resource = 0.05
+        self.p_reserved_port_name = 0.1
         self.size_thresholds = (0.3, 0.55, 0.65)   # unsized | fresh symbol | repeated symbol | (constant/compound when the incoming size is known)
         self.qubit_mode = False     # generate local_ancillae / positive sizes for the highwater property
         self.__dict__.update(kw)
@@ -288,7 +290,9 @@ def _decorate(rng, node, opts, is_root, under_rep=False, no_mult=False):
                 syms = [E.sym(s) for s in scope]
                 refs = [f"{c}.{rname}" for c in child_res.get(rname, [])]
                 val = gen_expr(rng, scope, opts, 2)
-                if refs and rng.random() < 0.7:
+                if rng.random() < opts.p_zero_resource:
+                    val = E.num(0)      # a resource that is literally 0 (absorbing for products, neutral for sums)
+                elif refs and rng.random() < 0.7:
                     val = E.bin_("+", val, E.bin_("*", E.num(rng.randint(1, 3)), E.sym(rng.choice(refs))))
                 ty = RES[rname]
                 if not under_rep and not no_mult and rng.random() < opts.p_type_override:
@@ -559,7 +563,35 @@ def gen_routine(rng: random.Random, opts: Opts | None = None):
     _assign_sizes(rng, root, opts, {}, True)
     _canon_sizes(root)
     _strip(root)
+    if rng.random() < opts.p_reserved_port_name:
+        _reserved_port_name(rng, root)
     return root
+
+
+def _reserved_port_name(rng, root):
+    """rename one port of one routine to a name that is a reserved word of the expression language (`in`, `lambda`): legal QREF
+    names; the port's size variable is then `#in` / `#lambda`"""
+    pairs = []   # (parent or None, node)
+
+    def rec(parent, n):
+        pairs.append((parent, n))
+        for c in n["children"]:
+            rec(n, c)
+    rec(None, root)
+    cands = [(par, n) for par, n in pairs if n["ports"] and n["repetition"] is None and (par is None or par["repetition"] is None)]
+    if not cands:
+        return
+    par, n = rng.choice(cands)
+    new = rng.choice(["in", "lambda"])
+    if any(p["name"] == new for p in n["ports"]):
+        return
+    p = rng.choice(n["ports"])
+    old = p["name"]
+    p["name"] = new
+    n["connections"] = [((a[0], new) if a == (None, old) else a, (b[0], new) if b == (None, old) else b) for a, b in n["connections"]]
+    if par is not None:
+        me = n["name"]
+        par["connections"] = [((me, new) if a == (me, old) else a, (me, new) if b == (me, old) else b) for a, b in par["connections"]]
 
 
 # ------------------------------------------------------------------------------------------------
